@@ -17,6 +17,6 @@ for f in sorted(glob.glob("/tmp/wt/confirm*.out")):
 json.dump({"property": prop, "origin": "independent sub-agent given only the property text and a scratch worktree",
            "description_and_needs": meta_txt.strip(),
            "confirmed_by_me": conf.strip().split("\n"),
-           "how_to_run_demo": "apply patch.diff to a scratch worktree of /repo, copy seeded_demo.rs to tests/, cargo test --offline --test seeded_demo (fails with the patch, passes without); cargo test --offline --lib passes 673 with the patch",
+           "how_to_run_demo": "apply patch.diff to a scratch worktree of /repo, copy seeded_demo.rs to tests/, cargo test --offline --test seeded_demo (fails with the patch, passes without); cargo test --offline --lib passes with the patch (673 tests up to round 11, 674 from round 12 on)",
            "detected": det, "detected_by": how}, open(dst + "/meta.json", "w"), indent=1)
 print("kept", dst)
